@@ -23,7 +23,7 @@ func init() {
 		Doc: "no error returned by a callee inside the scanners is dropped, except the explicit `_ = r.UnreadByte()`"})
 	Register(&Rule{Name: "SCANSHAPE", Floor: 6, Run: runScanShape,
 		Doc: "the separator gate passed to scanExponent equals the one of dec.scan (base == 0); fraction digits of a base-2/8/16 mantissa contribute 1/3/4 bits each and base-10 digits one decimal exponent each"})
-	Register(&Rule{Name: "FMTSHAPE", Floor: 8, Run: runFmtShape,
+	Register(&Rule{Name: "FMTSHAPE", Floor: 5, Run: runFmtShape,
 		Doc: "MarshalText asks for the shortest representation in a format Parse accepts; Append rounds a copy only for a non-negative precision, under x's rounding mode, and never asks for precision 0; infinity spellings and exponent markers written are among those read; Format handles every documented verb and flag"})
 }
 
